@@ -243,6 +243,11 @@ class Tr:
             return "(" + op.join(parts) + ")"
         if isinstance(e, ast.UnaryOp) and isinstance(e.op, ast.Not):
             return "(!%s)" % self.boolean(e.operand)
+        if isinstance(e, ast.Compare) and len(e.ops) == 1 and isinstance(e.ops[0], ast.NotIn):
+            # `x not in y` where the registered parameter is the source text `x in y`
+            pos = ast.unparse(ast.Compare(left=e.left, ops=[ast.In()], comparators=e.comparators))
+            if pos in self.names and self.names[pos][1] == "bool":
+                return "(!%s)" % self.names[pos][0]
         if isinstance(e, ast.Compare):
             items = [e.left] + list(e.comparators)
             parts = []
@@ -548,7 +553,7 @@ CONST_FILES = [
     ("_dns.py", ["_EXPIRE_FULL_TIME_MS", "_EXPIRE_STALE_TIME_MS", "_RECENT_TIME_MS", "_LEN_BYTE", "_LEN_SHORT", "_LEN_INT",
                  "_BASE_MAX_SIZE", "_NAME_COMPRESSION_MIN_SIZE"]),
     ("_core.py", ["_AGGREGATION_DELAY", "_PROTECTED_AGGREGATION_DELAY", "_REGISTER_BROADCASTS"]),
-    ("_handlers/answers.py", ["MULTICAST_DELAY_RANDOM_INTERVAL"]),
+    ("_handlers/answers.py", ["MULTICAST_DELAY_RANDOM_INTERVAL", "_FLAGS_QR_RESPONSE_AA"]),
     ("_listener.py", ["_TC_DELAY_RANDOM_INTERVAL"]),
     ("_services/browser.py", ["_FIRST_QUERY_DELAY_RANDOM_INTERVAL", "STARTUP_QUERIES", "RESCUE_RECORD_RETRY_TTL_PERCENTAGE", "_QU_QUESTION_IS_NONE"]),
     ("_protocol/incoming.py", ["MAX_DNS_LABELS", "MAX_NAME_LENGTH", "DNS_COMPRESSION_HEADER_LEN", "DNS_COMPRESSION_POINTER_LEN", "MAX_LABEL_LENGTH"]),
